@@ -313,3 +313,142 @@ Proof.
       rewrite B. subst s1. cbn [set_txbs txbs k_sent moved]. rewrite Et, <- app_assoc.
       now rewrite firstn_skipn.
 Qed.
+
+(* ---------- liveness under arbitrary healthy interleavings ---------- *)
+
+(* a receive answer that neither ends nor cuts the connection *)
+Definition healthy_r (c : cfg) (k : rres) : bool :=
+  match k with
+  | RData [] => false
+  | RData _ => true
+  | RFail e => match classify (kd c) DRx e with WouldBlock => true | _ => false end
+  end.
+Definition healthy_s (c : cfg) (k : sres) : bool :=
+  match k with
+  | SAccept _ => true
+  | SFail e => match classify (kd c) DTx e with WouldBlock => true | _ => false end
+  end.
+(* ops of a connection that stays healthy and gets no new payload *)
+Definition healthy (c : cfg) (o : op) : bool :=
+  match o with
+  | Tx _ => false
+  | SvcSends k => healthy_s c k
+  | SvcRecvs ks => forallb (healthy_r c) ks
+  | SvcRecvOnce k => healthy_r c k
+  | Service k ks => healthy_s c k && forallb (healthy_r c) ks
+  | TakeRx => true
+  | Connect => true
+  end.
+(* services in which the kernel takes at least one byte *)
+Definition progress (o : op) : nat :=
+  match o with
+  | SvcSends (SAccept (S _)) => 1
+  | Service (SAccept (S _)) _ => 1
+  | _ => 0
+  end.
+
+Lemma healthy_receive : forall c s k, healthy_r c k = true ->
+  let x := receive c s k in
+  connected (fst x) = connected s /\ cutoff (fst x) = cutoff s /\ txbs (fst x) = txbs s /\
+  (exists v, snd x = Ok v).
+Proof.
+  intros c s k H. unfold receive. destruct k as [d|e]; cbn in H.
+  - destruct d; [discriminate|]. cbn. eauto 6.
+  - destruct (classify (kd c) DRx e); try discriminate. cbn. eauto 6.
+Qed.
+
+Lemma healthy_receives : forall c ks s, forallb (healthy_r c) ks = true ->
+  let s' := st (service_receives c s ks) in
+  connected s' = connected s /\ cutoff s' = cutoff s /\ txbs s' = txbs s /\
+  snd (fst (service_receives c s ks)) = Ok tt.
+Proof.
+  intros c ks. induction ks as [|k ks IH]; intros s H; cbn [service_receives].
+  - destruct (gate c s); cbn; auto.
+  - cbn in H. apply andb_true_iff in H. destruct H as [Hk Hks].
+    destruct (gate c s); cbn; auto.
+    pose proof (healthy_receive c s k Hk) as R. cbn in R.
+    destruct (receive c s k) as [s1 r]. cbn in R. destruct R as (A & B & C & [v D]). subst r.
+    destruct v as [[|b d]|]; cbn; auto.
+    specialize (IH (rx_extend s1 (b :: d)) Hks). cbn in IH.
+    destruct (service_receives c (rx_extend s1 (b :: d)) ks) as [[s2 r2] n2]. unfold st in *. cbn in *.
+    destruct IH as (A' & B' & C' & D'). rewrite A', B', C'. auto.
+Qed.
+
+Lemma healthy_receive_once : forall c s k, healthy_r c k = true ->
+  let s' := st (service_receive_once c s k) in
+  connected s' = connected s /\ cutoff s' = cutoff s /\ txbs s' = txbs s.
+Proof.
+  intros c s k H. unfold service_receive_once, st. destruct (gate c s); cbn; auto.
+  pose proof (healthy_receive c s k H) as R. cbn in R.
+  destruct (receive c s k) as [s1 r]. cbn in R. destruct R as (A & B & C & _).
+  destruct r as [[[|b d]|]|e]; cbn; auto.
+Qed.
+
+Lemma healthy_sends : forall c s k, healthy_s c k = true -> gate c s = true ->
+  let s' := st (service_sends c s k) in
+  connected s' = connected s /\ cutoff s' = cutoff s /\
+  length (txbs s') <= length (txbs s) - (match k with SAccept (S _) => 1 | _ => 0 end).
+Proof.
+  intros c s k H G. unfold service_sends, st. rewrite G.
+  destruct (txbs s) as [|b t] eqn:Et; cbn [is_nil negb andb fst].
+  - rewrite Et. cbn. repeat split; lia.
+  - unfold send. destruct k as [n|e].
+    + destruct n as [|n]; cbn [fst set_txbs moved txbs connected cutoff].
+      * rewrite Et. cbn. repeat split; lia.
+      * rewrite Et. repeat split; auto. rewrite skipn_length. cbn. lia.
+    + cbn in H. destruct (classify (kd c) DTx e); try discriminate.
+      cbn [fst set_txbs txbs connected cutoff skipn]. rewrite Et. cbn. repeat split; lia.
+Qed.
+
+Lemma gate_same : forall c s s', connected s' = connected s -> cutoff s' = cutoff s -> gate c s' = gate c s.
+Proof. intros c s s' A B. unfold gate. now rewrite A, B. Qed.
+
+Lemma healthy_step : forall c s o, healthy c o = true -> gate c s = true ->
+  let s' := st (step c s o) in
+  gate c s' = true /\ length (txbs s') <= length (txbs s) - progress o.
+Proof.
+  intros c s o H G. destruct o; cbn [step healthy progress] in *.
+  - discriminate.
+  - destruct (healthy_sends c s k H G) as (A & B & C). split; [now rewrite (gate_same c s _ A B)|exact C].
+  - destruct (healthy_receives c ks s H) as (A & B & C & _). split; [now rewrite (gate_same c s _ A B)|]. rewrite C. lia.
+  - destruct (healthy_receive_once c s k H) as (A & B & C). split; [now rewrite (gate_same c s _ A B)|]. rewrite C. lia.
+  - apply andb_true_iff in H. destruct H as [Hk Hks].
+    destruct (is_client (kd c)).
+    + destruct (healthy_sends c s k Hk G) as (A & B & C). cbn in A, B, C.
+      destruct (service_sends c s k) as [[s1 r1] n1] eqn:E1. unfold st in A, B, C. cbn in A, B, C.
+      destruct r1 as [u|e].
+      * destruct (healthy_receives c ks s1 Hks) as (A' & B' & C' & _). cbn in A', B', C'.
+        destruct (service_receives c s1 ks) as [[s2 r2] n2]. unfold st in *. cbn in *.
+        split; [rewrite (gate_same c s s2); auto; congruence|]. rewrite C'. exact C.
+      * unfold st; cbn. split; [now rewrite (gate_same c s s1 A B)|exact C].
+    + destruct (healthy_receives c ks s Hks) as (A & B & C & D). cbn in A, B, C, D.
+      destruct (service_receives c s ks) as [[s1 r1] n1] eqn:E1. unfold st in A, B, C. cbn in A, B, C, D.
+      destruct r1 as [u|e]; [|discriminate].
+      assert (G1 : gate c s1 = true) by now rewrite (gate_same c s s1 A B).
+        destruct (healthy_sends c s1 k Hk G1) as (A' & B' & C'). cbn in A', B', C'.
+        destruct (service_sends c s1 k) as [[s2 r2] n2]. unfold st in *. cbn in *.
+        split; [rewrite (gate_same c s s2); auto; congruence|]. rewrite <- C. exact C'.
+  - cbn. split; auto. lia.
+  - destruct (is_client (kd c) && negb (connected s)) eqn:E; unfold st; cbn [fst]; [|split; auto; lia].
+    split; [|cbn; lia]. unfold gate in *. cbn. apply andb_true_iff in E. destruct E as [E1 E2].
+    rewrite E1 in *. destruct (connected s); discriminate.
+Qed.
+
+Fixpoint progress_count (ops : list op) : nat :=
+  match ops with [] => 0 | o :: r => progress o + progress_count r end.
+
+Theorem healthy_drain : forall c ops s,
+  gate c s = true -> forallb (healthy c) ops = true ->
+  let s' := exec c s ops in
+  gate c s' = true /\ length (txbs s') <= length (txbs s) - progress_count ops /\
+  k_sent s' ++ txbs s' = k_sent s ++ txbs s.
+Proof.
+  intros c ops. induction ops as [|o ops IH]; intros s G H; cbn [exec progress_count].
+  - repeat split; auto. lia.
+  - cbn in H. apply andb_true_iff in H. destruct H as [Ho Hr].
+    destruct (healthy_step c s o Ho G) as (G1 & L1). cbn in G1, L1.
+    destruct (IH _ G1 Hr) as (G2 & L2 & T2). cbn in G2, L2, T2.
+    repeat split; auto; [lia|].
+    rewrite T2. pose proof (step_tx c s o) as X. cbn in X. rewrite X.
+    destruct o; cbn [payload]; try now rewrite app_nil_r. discriminate.
+Qed.
